@@ -7,7 +7,11 @@ decision table of the per-lease expiry decision; C26.3-C26.5 are the guarded
 effects, the unlink conditions and the configuration plumbing.  C26.6 re-derives
 the decision table of C26.2 from the loop-head invariant state, so that state
 carried over from an earlier lease (a flag initialised once before the loop, an
-attribute, the queue itself) cannot steer the verdict on a later lease."""
+attribute, the queue itself) cannot steer the verdict on a later lease.
+C26.7 is the liveness side of the two cancel_lease implementations: explored
+under the scenario "every lease found carries the cancelled secret", with the
+constant-stepped counters and flags followed exactly, the unlink must remain
+reachable."""
 from fractions import Fraction
 
 from sa.h import *
@@ -27,11 +31,21 @@ EXPLANATION = (
     "attributes are bound only in __init__; (6) the decision table of (2) holds in every iteration of the lease loop, "
     "not only the first: it is re-derived from the loop-head state of a constant-propagation fixpoint in which every "
     "local, self attribute or container written by the loop body is an opaque value left by the previous lease unless "
-    "each pass provably re-establishes its pre-loop constant - so no lease's verdict depends on an earlier lease's. "
-    "Undecided: clock values, the arithmetic of parse_duration/parse_date (C48), lease record (de)serialisation "
-    "(C25), that one crawl cycle reaches every share (C27).")
+    "each pass provably re-establishes its pre-loop constant - so no lease's verdict depends on an earlier lease's; "
+    "(7) deletion within the cycle, structurally: the documented predicates are strict (a lease exactly on the "
+    "boundary is kept); the lease loop is left early (break/return) only on a path that establishes the lease as "
+    "unexpired, never after queuing one; after one cancel_lease the loop over the expired list always continues; in "
+    "both containers, under the scenario 'every lease found carries the cancelled secret' - match / remaining "
+    "counters and flags followed with their exact values, every other test free - the unlink is reachable; a "
+    "fallback expire.mode is read only when expire.enabled is false. "
+    "Undecided: clock values, the arithmetic of parse_duration/parse_date (C48), lease record (de)serialisation and "
+    "the slot arithmetic of _read_lease_record (C25), that one crawl cycle reaches every share (C27), the "
+    "space-recovered / would_keep_share statistics and histograms, what happens to a share that already has no "
+    "lease at all (it is never cancelled, hence never deleted), crashes (unbound locals, IndexError out of "
+    "cancel_lease) that stop the crawler instead of deleting.")
 TECHNIQUE = ("static analysis: dimension abstract interpretation over the CFG, symbolic path enumeration of the "
-             "expiry decision, guarded-effect path rules, keyword/def-use plumbing")
+             "expiry decision, guarded-effect path rules, exact-counter scenario exploration of cancel_lease, "
+             "keyword/def-use plumbing")
 
 EXPIRER = "storage.expirer:LeaseCheckingCrawler"
 LEASE = "storage.lease:LeaseInfo"
@@ -811,7 +825,8 @@ def _loop_head_state(sx, fn, head, list_name):
     writes (locals, attributes of self, containers it stores into or calls for
     effect) is an opaque carried value, unless its value before the loop is a
     constant that every path through the body re-establishes.
-    Returns (head_env, paths enumerated under it)."""
+    Returns (head_env, paths through one iteration enumerated under it, paths
+    that leave the loop from inside an iteration)."""
     first = sx.paths(head, list_name)
     sx.total_steps = sx.steps
     pre = list(sx.pre_envs)
@@ -850,7 +865,8 @@ def _loop_head_state(sx, fn, head, list_name):
         sx.total_steps += sx.steps
         broken = {w for w in cand for p in paths if p[4] == "next-lease" and not p[2].get(w) == cand[w]}
         if not broken:
-            return head_env, [p for p in paths if p[4] == "next-lease"]
+            return head_env, [p for p in paths if p[4] == "next-lease"], \
+                [p for p in paths if p[4] == "exit" and any(x is head for x in p[3])]
         for w in broken:
             del cand[w]
     raise AnalysisError("%s: loop-head state did not stabilise" % fn.qual)
@@ -1074,8 +1090,6 @@ def run(ctx: Context):
             r.violation("%s[%s]" % (ps.qual, case), ps.loc(node.ast if node is not None else None), msg, w)
 
         cases = _decision_table(ps, paths, head, L, lease, want, report)
-        for c in sorted(cases):
-            r.site(ps, head.ast, "case %s/%s" % c)
         for p in early:
             if any(e[0] == "append" for e in p[1]):
                 last = p[3][-1]
@@ -1087,8 +1101,10 @@ def run(ctx: Context):
         def report_early(case, node, msg, trail, tests):
             report("early-exit", trail[-1] if trail else node, "the lease loop is left early (L%d) on a path that does not "
                    "establish the lease as unexpired: %s" % (trail[-1].lineno if trail else 0, msg), trail, tests)
-        _decision_table(ps, [p for p in early if not any(e[0] == "append" for e in p[1])], head, L, lease, want,
-                        report_early, list_events=False)
+        cases |= _decision_table(ps, [p for p in early if not any(e[0] == "append" for e in p[1])], head, L, lease, want,
+                                 report_early, list_events=False)
+        for c in sorted(cases):
+            r.site(ps, head.ast, "case %s/%s" % c)
 
     # -- 6. the same table in every iteration (nothing carried over from the previous lease) ----
     with ctx.rule("C26.6", "R3/E2", "the per-lease decision table holds in every iteration of the lease loop, not "
@@ -1096,7 +1112,7 @@ def run(ctx: Context):
                   "head as whatever an earlier lease may have left there (unless inductively constant), a lease is "
                   "still queued iff its own predicate holds", expected=7) as r:
         sx6 = SymExec(idx, ps)
-        head_env, carried_paths = _loop_head_state(sx6, ps, head, L)
+        head_env, carried_paths, carried_early = _loop_head_state(sx6, ps, head, L)
         r.count(sx6.total_steps)
         r.sample({"carried": sorted(k for k, v in head_env.items() if _is_carried(v)),
                   "inductively constant": sorted("%s=%s" % (k, _s(v)) for k, v in head_env.items() if not _is_carried(v))})
@@ -1122,6 +1138,13 @@ def run(ctx: Context):
 
         cases6 = _decision_table(ps, carried_paths, head, L, lease, want, report6, select=involves_carried,
                                  list_events=False, all_cases=True)
+        # leaving the loop from a later iteration: like keeping the lease (see C26.2), never after queuing one
+        for p in carried_early:
+            if any(e[0] == "append" for e in p[1]) and involves_carried(p[0], p[1]):
+                report6("early-exit", p[3][-1], "the lease loop is left (L%d) after a lease was queued for cancellation, the "
+                        "remaining leases of the share are not examined" % p[3][-1].lineno, p[3], p[5])
+        cases6 |= _decision_table(ps, [p for p in carried_early if not any(e[0] == "append" for e in p[1])], head, L,
+                                  lease, want, report6, select=involves_carried, list_events=False, all_cases=True)
         for c in sorted(cases6):
             r.site(ps, head.ast, "case %s/%s (any iteration)" % c)
 
